@@ -34,8 +34,10 @@ from liquid2 import is_template_string_token
 from liquid2 import is_token_type
 from liquid2.exceptions import LiquidSyntaxError
 from liquid2.exceptions import LiquidTypeError
+from liquid2.exceptions import LiquidValueError
 from liquid2.exceptions import UnknownFilterError
 from liquid2.expression import Expression
+from liquid2.limits import MAX_STR_INT
 from liquid2.limits import to_int
 from liquid2.unescape import escape as escape_string
 from liquid2.unescape import quote_string
@@ -698,6 +700,21 @@ class FilteredExpression(Expression):
         return FilteredExpression(left.token, left, filters)
 
 
+def _parse_integer(token: Token) -> int:
+    """Return the exact value of an integer literal, possibly with an exponent."""
+    mantissa, _, exponent = token.value.lower().partition("e")
+    if not exponent:
+        return to_int(mantissa)
+
+    power = to_int(exponent)
+    if MAX_STR_INT and power + len(mantissa) > MAX_STR_INT:
+        raise LiquidValueError(
+            f"integer literal exponent exceeds the limit of {MAX_STR_INT} digits",
+            token=token,
+        )
+    return to_int(mantissa) * 10**power
+
+
 def parse_primitive(env: Environment, token: TokenT) -> Expression:  # noqa: PLR0911
     """Parse _token_ as a primitive expression."""
     if is_token_type(token, TokenType.TRUE):
@@ -717,7 +734,7 @@ def parse_primitive(env: Environment, token: TokenT) -> Expression:  # noqa: PLR
         return Path(token, [token.value])
 
     if is_token_type(token, TokenType.INT):
-        return IntegerLiteral(token, to_int(float(token.value)))
+        return IntegerLiteral(token, _parse_integer(token))
 
     if is_token_type(token, TokenType.FLOAT):
         return FloatLiteral(token, float(token.value))
@@ -1193,7 +1210,7 @@ def parse_boolean_primitive(  # noqa: PLR0912
         else:
             left = Path(token, [token.value])
     elif is_token_type(token, TokenType.INT):
-        left = IntegerLiteral(token, to_int(float(token.value)))
+        left = IntegerLiteral(token, _parse_integer(token))
     elif is_token_type(token, TokenType.FLOAT):
         left = FloatLiteral(token, float(token.value))
     elif is_token_type(token, TokenType.DOUBLE_QUOTE_STRING):
